@@ -33,6 +33,8 @@
 (*       (only where the client maintains the fall-back tag: modes "tag"   *)
 (*        and "oci"; with the referrers API the tag is not judged)         *)
 (*   incoherent-get   a get by digest returned bytes of another digest     *)
+(*   incoherent-view  ... or an object whose descriptor list is not the    *)
+(*       one in its own bytes                                              *)
 (*       (a listing machinery that corrupts what the client serves under   *)
 (*        a digest breaks "the manifests currently stored")                *)
 (*   store-mismatch   raw storage disagrees with every linearisation       *)
@@ -119,9 +121,12 @@ PTag(s, res, types, anns) ==
                           <<AttrBad(res, types, anns), "tag-attr">> >>)
   /\ UNCHANGED <<subj, mode, pend, poss, cur, quiet>>
 
-\* outcome: "same" (the bytes hash to the digest asked for), "notfound", "error", or "other"
-PFetch(outcome) ==
-  /\ bad' = First(<< <<outcome \notin {"same", "notfound", "error"}, "incoherent-get">> >>)
+\* outcome: "same" (the bytes hash to the digest asked for), "notfound", "error", or "other";
+\* view: "same" / "differs" - does the structured view of the returned object (its descriptor
+\* list) agree with its own raw bytes ("none": not an index / not obtained)
+PFetch(outcome, view) ==
+  /\ bad' = First(<< <<outcome \notin {"same", "notfound", "error"}, "incoherent-get">>,
+                    <<view = "differs", "incoherent-view">> >>)
   /\ UNCHANGED <<subj, mode, pend, poss, cur, quiet>>
 
 PNote == UNCHANGED pvars
